@@ -94,12 +94,14 @@ prop(
 
 prop(
     "C05",
-    configs={"quick": ["rel", "dbg"], "thorough": ["rel", "dbg"]},
+    configs={"quick": ["rel", "dbg", "race"], "thorough": ["rel", "dbg", "race"]},
+    race_batches={"quick": 4, "thorough": 8},
     timeout={"quick": 300, "thorough": 3000},
     rule="(a) library-fingerprinted messages (with/without MESSAGE-INTEGRITY before): appended value vs bitwise CRC-32 oracle, then EVERY "
          "bit position flipped; (b) random bursts of width 2..32 in transmission (LSB-first) bit order; (c) arbitrary decodable messages "
          "with 1-2 FINGERPRINT attributes of any length and position, random padding/trailing bytes, first one made correct in half "
-         "of the cases. Library verdict must equal the oracle's 'first FINGERPRINT is 4 bytes and equals CRC(raw[:len-8])^0x5354554e'; "
+         "of the cases (also over-long values that merely start with the right CRC); (d) 8 goroutines fingerprinting and "
+         "checking their own messages concurrently (also in the race build). Library verdict must equal the oracle's 'first FINGERPRINT is 4 bytes and equals CRC(raw[:len-8])^0x5354554e'; "
          "corruptions that stay decodable with exactly one FINGERPRINT must fail. evaluations = Check verdicts judged (or decode "
          "failures observed); distinct_nontrivial = distinct base messages",
     assumptions=[
@@ -111,7 +113,7 @@ prop(
 prop(
     "C06",
     timeout={"quick": 300, "thorough": 3000},
-    rule="(1) all 65536 ports x {IPv4, IPv6, IPv4-mapped IPv6} x 7 address attribute entry points (XOR-MAPPED-ADDRESS, XORMappedAddress.AddToAs "
+    rule="(1) all 65536 ports x {IPv4, IPv6, IPv4-mapped IPv6, one-byte near misses of the ::ffff:0:0/96 prefix} x 7 address attribute entry points (XOR-MAPPED-ADDRESS, XORMappedAddress.AddToAs "
          "over 7 types, MAPPED-ADDRESS, MappedAddress.AddToAs, ALTERNATE-SERVER, RESPONSE-ORIGIN, OTHER-ADDRESS) with random addresses and "
          "transaction ids, plus extra random cases; (2) the four text attributes at every length 0..limit and limit+1; (3) every error "
          "code 300..699 with 7 reason lengths; (4) UNKNOWN-ATTRIBUTES lists of 0..64 types. Each value: library bytes == independent RFC "
